@@ -349,6 +349,8 @@ def conn_ref(state, inp, client_side):
             return 'SERVER_OPEN'
         if client_side and inp == 'RECV_ALTERNATIVE_SERVICE':
             return 'CLIENT_OPEN'
+        if not client_side and inp == 'RECV_ALTERNATIVE_SERVICE':
+            return 'IDLE'      # servers ignore ALTSVC (RFC 7838 section 4)
         return None
     if state != my_open:
         return None           # the other role's state: unreachable
